@@ -34,6 +34,19 @@ Recognised shapes (anything else raises Untranslatable -> tie broken):
  converters/functions.py
    visit_FunctionDef                     template = "with ag__.FunctionScope(..) as function_context: body"
    visit_Lambda                          template = "ag__.with_function_scope(lambda function_context: body, .., ..)"
+   both fill the template with           options=self._function_scope_options(fn_scope).to_ast()
+   _function_scope_options(fn_scope)     decision tree -> gen_scope_user_requested nested ur rc:
+                                         statements  <name> = <opts> | if <cond>: .. [else: ..] | return <opts>
+                                         <opts> = self.ctx.user.options | <name> | <opts>.call_options()
+                                         <cond> = and / or / not over  fn_scope.level <cmp> <int> (only comparisons that
+                                         separate level 2 = the entity's top-level function from all deeper levels),
+                                         <opts>.recursive, <opts>.user_requested
+ core/converter.py
+   ConversionOptions.call_options        return ConversionOptions(recursive=self.recursive, user_requested=<False |
+                                         self.user_requested>, internal_convert_user_code=self.recursive, ..)
+                                         -> gen_call_options_user_requested
+ function_wrappers.py
+   FunctionScope.__init__                self.callopts = options.call_options()
 
  api.py   (wrapper skeleton language: with / try-except-that-always-raises / try-finally / the call of
            the wrapped function / statements that do not mention contexts)
@@ -270,6 +283,7 @@ def _function_wrappers(repo):
     const_false = set()
     init_guard = init_status = None
     stores_options = False
+    stores_callopts = False
 
     def ctx_ctor(v):
         if isinstance(v, ast.Call) and _src(v.func) in ('ag_ctx.ControlStatusCtx', 'ControlStatusCtx'):
@@ -285,6 +299,11 @@ def _function_wrappers(repo):
         t = _src(s)
         if t == 'self.options = options':
             stores_options = True
+        elif t == 'self.callopts = options.call_options()':
+            stores_callopts = True
+        elif isinstance(s, (ast.Assign, ast.AugAssign)) and any(
+                isinstance(x, ast.Attribute) and x.attr == 'callopts' for x in ast.walk(s)):
+            _fail(fn, s, 'FunctionScope.__init__: self.callopts is not options.call_options(): ' + t)
         elif isinstance(s, ast.Assign) and len(s.targets) == 1 and isinstance(s.value, ast.Constant) \
                 and s.value.value is False and _src(s.targets[0]).startswith('self.'):
             const_false.add(s.targets[0].attr)
@@ -302,6 +321,8 @@ def _function_wrappers(repo):
             _fail(fn, s, 'FunctionScope.__init__ statement touching contexts: ' + t)
     if not stores_options or init_guard is None:
         _fail(fn, init, 'FunctionScope.__init__ must store options and create self.autograph_ctx')
+    if not stores_callopts:
+        _fail(fn, init, 'FunctionScope.__init__ must set self.callopts = options.call_options()')
     # no other method assigns autograph_ctx / options / the constant flags
     for m in cl.body:
         if isinstance(m, ast.FunctionDef) and m.name != '__init__':
@@ -309,7 +330,7 @@ def _function_wrappers(repo):
                 if isinstance(n, (ast.Assign, ast.AugAssign)):
                     tg = n.targets if isinstance(n, ast.Assign) else [n.target]
                     for t in tg:
-                        if isinstance(t, ast.Attribute) and (t.attr in ('autograph_ctx', 'options') or t.attr in const_false):
+                        if isinstance(t, ast.Attribute) and (t.attr in ('autograph_ctx', 'options', 'callopts') or t.attr in const_false):
                             _fail(fn, n, 'FunctionScope.%s reassigns self.%s' % (m.name, t.attr))
 
     def guards(meth):
@@ -472,6 +493,29 @@ def _functions(repo):
             _fail(fn, m, 'exactly one template string expected in ' + meth)
         import textwrap
         return ast.parse(textwrap.dedent(ts[0].value.value)), ts[0]
+    def options_arg(meth):
+        m = _find(cl.body, ast.FunctionDef, meth)
+        calls = [n for n in ast.walk(m) if isinstance(n, ast.Call) and any(k.arg == 'options' for k in n.keywords)
+                 and _src(n.func).startswith('templates.replace')]
+        if len(calls) != 1:
+            _fail(fn, m, 'exactly one templates.replace*(template, options=..) expected in ' + meth)
+        o = [k.value for k in calls[0].keywords if k.arg == 'options'][0]
+        if _src(o) != 'self._function_scope_options(fn_scope).to_ast()':
+            _fail(fn, o, '%s: options of the function scope are not self._function_scope_options(fn_scope).to_ast()' % meth)
+        if not (calls[0].args and _src(calls[0].args[0]) == 'template'):
+            _fail(fn, calls[0], '%s: the template is not what is filled in' % meth)
+    options_arg('visit_FunctionDef')
+    options_arg('visit_Lambda')
+    for meth in ('visit_FunctionDef', 'visit_Lambda'):
+        m = _find(cl.body, ast.FunctionDef, meth)
+        w = [n for n in m.body if isinstance(n, ast.With)]
+        if not (len(m.body) == 1 and w and len(w[0].items) == 1 and _src(w[0].items[0].context_expr) == 'self.state[_Function]'
+                and isinstance(w[0].items[0].optional_vars, ast.Name) and w[0].items[0].optional_vars.id == 'fn_scope'):
+            _fail(fn, m, meth + ': body is not `with self.state[_Function] as fn_scope:` (nesting level of definitions)')
+    fc = _find(tree.body, ast.ClassDef, '_Function')
+    if fc is None or 'no_root' in _src(fc):
+        _fail(fn, fc or tree, 'class _Function (state stack with a root entry: level 2 = top-level function) expected')
+    scope_ur = _scope_options(fn, cl)
     t, node = template('visit_FunctionDef')
     if not (len(t.body) == 1 and isinstance(t.body[0], ast.With) and len(t.body[0].items) == 1
             and _src(t.body[0].items[0].context_expr.func) == 'ag__.FunctionScope'
@@ -483,7 +527,125 @@ def _functions(repo):
     if not (isinstance(e, ast.Call) and _src(e.func) == 'ag__.with_function_scope' and len(e.args) == 3
             and isinstance(e.args[0], ast.Lambda) and _src(e.args[0].body) == 'body'):
         _fail(fn, node2, 'lambda template is not ag__.with_function_scope(lambda ..: body, .., ..)')
-    return {'converted_fn': code}
+    return {'converted_fn': code, 'scope_ur': scope_ur}
+
+
+def _scope_options(fn, cl):
+    """FunctionTransformer._function_scope_options -> Gallina bool term over `nested ur rc` : user_requested of the
+    options a function definition's scope is generated with.  Options values are tracked symbolically as the pair
+    (user_requested term, recursive term); the recursive component of every returned value must be the requested one."""
+    m = _find(cl.body, ast.FunctionDef, '_function_scope_options')
+    if m is None:
+        _fail(fn, cl, '_function_scope_options missing')
+    if [a.arg for a in m.args.args] != ['self', 'fn_scope'] or m.args.vararg or m.args.kwarg or m.decorator_list:
+        _fail(fn, m, '_function_scope_options(self, fn_scope)')
+    REQ = ('ur', 'rc')
+
+    def opts(e, env):
+        if _src(e) == 'self.ctx.user.options':
+            return REQ
+        if isinstance(e, ast.Name) and e.id in env:
+            return env[e.id]
+        if isinstance(e, ast.Call) and not e.args and not e.keywords and isinstance(e.func, ast.Attribute) \
+                and e.func.attr == 'call_options':
+            u, r = opts(e.func.value, env)
+            return ('(gen_call_options_user_requested %s)' % u, r)
+        _fail(fn, e, 'options expression ' + _src(e))
+
+    TOP = {ast.Eq: 2, ast.LtE: 2, ast.Lt: 3}           # fn_scope.level <op> <n>  <=>  top-level (levels are >= 2)
+    NOTTOP = {ast.NotEq: 2, ast.Gt: 2, ast.GtE: 3}
+
+    def cond(e, env):
+        if isinstance(e, ast.BoolOp):
+            op = ' && ' if isinstance(e.op, ast.And) else ' || '
+            return '(' + op.join(cond(v, env) for v in e.values) + ')'
+        if isinstance(e, ast.UnaryOp) and isinstance(e.op, ast.Not):
+            return '(negb %s)' % cond(e.operand, env)
+        if isinstance(e, ast.Compare) and len(e.ops) == 1 and _src(e.left) == 'fn_scope.level' \
+                and isinstance(e.comparators[0], ast.Constant) and type(e.comparators[0].value) is int:
+            k, v = type(e.ops[0]), e.comparators[0].value
+            if TOP.get(k) == v:
+                return '(negb nested)'
+            if NOTTOP.get(k) == v:
+                return 'nested'
+            _fail(fn, e, 'comparison of the nesting level that does not separate level 2 from deeper levels: ' + _src(e))
+        if isinstance(e, ast.Attribute) and e.attr in ('recursive', 'user_requested'):
+            u, r = opts(e.value, env)
+            return u if e.attr == 'user_requested' else r
+        _fail(fn, e, 'condition ' + _src(e))
+
+    def block(stmts, env, rest):
+        """-> Gallina term; `rest` = term of what follows the block (None: falls off the end = returns None)"""
+        stmts = _nodoc(stmts)
+        if not stmts:
+            if rest is None:
+                _fail(fn, m, '_function_scope_options may fall off its end')
+            return rest
+        s, tail = stmts[0], stmts[1:]
+        if isinstance(s, ast.Return) and s.value is not None:
+            u, r = opts(s.value, env)
+            if r != 'rc':
+                _fail(fn, s, 'returned options do not keep the requested recursive flag')
+            return u
+        if isinstance(s, ast.Assign) and len(s.targets) == 1 and isinstance(s.targets[0], ast.Name):
+            env = dict(env)
+            env[s.targets[0].id] = opts(s.value, env)
+            return block(tail, env, rest)
+        if isinstance(s, ast.If):
+            after = block(tail, env, rest) if (tail or rest is not None) else None
+            c = cond(s.test, env)
+            a = block(s.body, env, after)
+            b = block(s.orelse, env, after) if s.orelse else after
+            if b is None:
+                _fail(fn, s, '_function_scope_options may fall off its end')
+            return '(if %s then %s else %s)' % (c, a, b)
+        if isinstance(s, ast.Pass):
+            return block(tail, env, rest)
+        _fail(fn, s, 'statement of _function_scope_options: ' + _src(s)[:80])
+    return block(m.body, {}, None)
+
+
+# ---------------------------------------------------------------- core/converter.py
+def _converter(repo):
+    fn = 'malt/core/converter.py'
+    tree = _parse(repo, fn)
+    cl = _find(tree.body, ast.ClassDef, 'ConversionOptions')
+    if cl is None:
+        _fail(fn, tree, 'class ConversionOptions missing')
+    init = _find(cl.body, ast.FunctionDef, '__init__')
+    if init is None:
+        _fail(fn, cl, 'ConversionOptions.__init__ missing')
+    stores = [_src(s) for s in init.body]
+    for a in ('recursive', 'user_requested', 'internal_convert_user_code'):
+        if 'self.%s = %s' % (a, a) not in stores:
+            _fail(fn, init, 'ConversionOptions.__init__ must store self.%s = %s' % (a, a))
+    m = _find(cl.body, ast.FunctionDef, 'call_options')
+    if m is None:
+        _fail(fn, cl, 'ConversionOptions.call_options missing')
+    b = _nodoc(m.body)
+    if not (len(b) == 1 and isinstance(b[0], ast.Return) and isinstance(b[0].value, ast.Call)
+            and _src(b[0].value.func) == 'ConversionOptions' and not b[0].value.args):
+        _fail(fn, m, 'call_options is not `return ConversionOptions(<keywords>)`')
+    kw = {k.arg: _src(k.value) for k in b[0].value.keywords}
+    if kw.get('recursive') != 'self.recursive' or kw.get('internal_convert_user_code') != 'self.recursive':
+        _fail(fn, m, 'call_options must keep recursive and set internal_convert_user_code=self.recursive')
+    ur = kw.get('user_requested')
+    if ur == 'False':
+        term = 'false'
+    elif ur == 'self.user_requested':
+        term = 'ur'
+    elif ur == 'True':
+        term = 'true'
+    else:
+        _fail(fn, m, 'call_options: user_requested=%s' % ur)
+    # the generated constructor call must carry the flag itself
+    ta = _find(cl.body, ast.FunctionDef, 'to_ast')
+    if ta is None:
+        _fail(fn, cl, 'ConversionOptions.to_ast missing')
+    src = _src(ta).replace(' ', '')
+    if 'user_requested=user_requested_val' not in src or 'user_requested_val=parser.parse_expression(str(self.user_requested))' not in src:
+        _fail(fn, ta, 'to_ast does not encode user_requested=self.user_requested')
+    return {'call_ur': term}
 
 
 # ---------------------------------------------------------------- api.py
@@ -688,11 +850,13 @@ def translate(repo):
     _repo_wide(repo)
     w = _function_wrappers(repo)
     c = _functions(repo)
+    cv = _converter(repo)
     p = _api(repo)
     t = p['internal']
     lines = [
-        '(* GENERATED by tools/translate/c16_ctx.py from malt/core/ag_ctx.py, malt/operators/function_wrappers.py,',
-        '   malt/converters/functions.py and malt/impl/api.py -- do not edit; rewritten on every run. *)',
+        '(* GENERATED by tools/translate/c16_ctx.py from malt/core/ag_ctx.py, malt/core/converter.py,',
+        '   malt/operators/function_wrappers.py, malt/converters/functions.py and malt/impl/api.py',
+        '   -- do not edit; rewritten on every run. *)',
         'From Coq Require Import List Bool.',
         'Import ListNotations.',
         'Require Import MV.Ctx.CtxSyntax.',
@@ -721,11 +885,14 @@ def translate(repo):
         'Definition gen_unspec_skips_art : bool := %s.' % _b(p['unspec_skips']),
         'Definition gen_convert_skips_art : bool := %s.' % _b(p['convert_skips']),
         'Definition gen_internal_skips_art : bool := %s.' % _b(p['internal_skips']),
+        'Definition gen_call_options_user_requested (ur : bool) : bool := %s.' % cv['call_ur'],
+        'Definition gen_scope_user_requested (nested ur rc : bool) : bool := %s.' % c['scope_ur'],
         'Definition gen_tables : tables :=',
         '  mk_tables gen_ctx_enter gen_ctx_exit gen_default_status gen_thread_local gen_scope',
         '            gen_with_function_scope gen_converted_fn gen_do_not_convert gen_unspecified gen_convert',
         '            gen_internal gen_disabled_check gen_to_graph_user_requested',
-        '            gen_dnc_skips_art gen_unspec_skips_art gen_convert_skips_art gen_internal_skips_art.',
+        '            gen_dnc_skips_art gen_unspec_skips_art gen_convert_skips_art gen_internal_skips_art',
+        '            gen_scope_user_requested gen_call_options_user_requested.',
         '',
     ]
     return '\n'.join(lines)
